@@ -428,6 +428,9 @@ pub enum Kind {
     Alt { glyphs: Vec<u16>, firsts: Vec<u16>, count: u16 },
     /// GPOS SinglePosFormat1: x_advance += adv
     Pos { glyphs: Vec<u16>, adv: i16 },
+    /// this (GSUB) feature lists the lookup of feature `k` of the same font (k < own index, a Single feature):
+    /// one lookup shared by several features, gated by the union of their masks
+    Same(usize),
 }
 
 #[derive(Clone, Debug)]
@@ -509,6 +512,14 @@ fn subtable(kind: &Kind) -> (u16, Vec<u8>) {
             coverage(&mut w, glyphs);
             (1, w.0)
         }
+        Kind::Same(_) => {
+            // the feature's own lookup slot: a single substitution that covers nothing
+            w.u16(1);
+            w.u16(6);
+            w.i16(0);
+            coverage(&mut w, &[]);
+            (1, w.0)
+        }
     }
 }
 
@@ -554,7 +565,11 @@ fn layout_table(feats: &[&Feat]) -> Vec<u8> {
         w.set16(rec_at + 6 * k + 4, here);
         w.u16(0);
         w.u16(1);
-        w.u16(order[k] as u16);
+        let li = match feats[order[k]].kind {
+            Kind::Same(j) => j,
+            _ => order[k],
+        };
+        w.u16(li as u16);
     }
     // LookupList
     let ll = w.0.len();
@@ -727,10 +742,26 @@ fn font_c() -> (Vec<u8>, Vec<Feat>) {
     (build_font(1, 10, &feats), feats)
 }
 
+/// Font D: lookups shared between features: ss01 and ss02 list one lookup (1 -> 11), ss03 its own (2 -> 22),
+/// cv01 and cv02 and ss04 list another one (3 -> 33), kern positions glyph 4.
+fn font_d() -> (Vec<u8>, Vec<Feat>) {
+    let feats = vec![
+        Feat { tag: *b"ss01", kind: Kind::Single { glyphs: vec![1], delta: 10 } },
+        Feat { tag: *b"ss02", kind: Kind::Same(0) },
+        Feat { tag: *b"ss03", kind: Kind::Single { glyphs: vec![2], delta: 20 } },
+        Feat { tag: *b"cv01", kind: Kind::Single { glyphs: vec![3], delta: 30 } },
+        Feat { tag: *b"cv02", kind: Kind::Same(3) },
+        Feat { tag: *b"ss04", kind: Kind::Same(3) },
+        Feat { tag: *b"kern", kind: Kind::Pos { glyphs: vec![4], adv: 70 } },
+    ];
+    (build_font(4, 50, &feats), feats)
+}
+
 fn dumpfont_cmd(args: &[String]) {
     let (d, _) = match args.get(1).map(|s| s.as_str()) {
         Some("b") => font_b(),
         Some("c") => font_c(),
+        Some("d") => font_d(),
         _ => font_a(),
     };
     use std::io::Write;
@@ -931,12 +962,21 @@ fn expected(featsdef: &[Feat], user: &[Feature], gid0: u16, c: u32, allocated: &
     let mut gid = gid0;
     let mut adv = ADVANCE;
     // GSUB lookups in lookup order = feature order in `featsdef` (GSUB ones), then GPOS
-    for f in featsdef {
+    for (fi, f) in featsdef.iter().enumerate() {
         let mut v = value_at(user, &f.tag, c);
         if !allocated(&f.tag) {
             v = 0;
         }
+        // a lookup listed by several features fires where any of them is on
+        for g in featsdef {
+            if let Kind::Same(j) = g.kind {
+                if j == fi && allocated(&g.tag) && value_at(user, &g.tag, c) != 0 {
+                    v = v.max(1);
+                }
+            }
+        }
         match &f.kind {
+            Kind::Same(_) => {}
             Kind::Single { glyphs, delta } => {
                 if v != 0 && glyphs.contains(&gid) {
                     gid = (gid as i32 + *delta as i32) as u16;
@@ -1096,15 +1136,18 @@ fn api_cmd(args: &[String]) {
     let face_b = Face::from_slice(&db, 0).expect("font B parses");
     let (dc, fc) = font_c();
     let face_c = Face::from_slice(&dc, 0).expect("font C parses");
+    let (dd, fdd) = font_d();
+    let face_d = Face::from_slice(&dd, 0).expect("font D parses");
     for it in 0..nrand {
         if st.bad >= max_report {
             break;
         }
-        let which = it % 3;
+        let which = it % 4;
         let (face, fd, name, nbase): (&Face, &Vec<Feat>, &'static str, u32) = match which {
             0 => (&face_a, &fa, "A", fa.len() as u32),
             1 => (&face_b, &fb, "B", 40),
-            _ => (&face_c, &fc, "C", 1),
+            2 => (&face_c, &fc, "C", 1),
+            _ => (&face_d, &fdd, "D", 4),
         };
         // distinct tags, each at most once
         let mut avail: Vec<[u8; 4]> = fd.iter().map(|f| f.tag).collect();
@@ -1148,6 +1191,10 @@ fn api_cmd(args: &[String]) {
                     let t = feats[r.below(feats.len() as u64) as usize].tag.to_bytes();
                     fd.iter().position(|f| f.tag == t).map(|p| match &fd[p].kind {
                         Kind::Single { glyphs, .. } | Kind::Alt { glyphs, .. } | Kind::Pos { glyphs, .. } => glyphs[0] as u32 - 1,
+                        Kind::Same(j) => match &fd[*j].kind {
+                            Kind::Single { glyphs, .. } => glyphs[0] as u32 - 1,
+                            _ => 0,
+                        },
                     }).unwrap_or(0)
                 } else {
                     r.below(nbase as u64) as u32
